@@ -63,9 +63,9 @@ Theorem C08_filterfalse_checkpoints : forall (p : Z -> bool) (s : src),
 Proof. exact filterfalse_checkpoints. Qed.
 Print Assumptions C08_filterfalse_checkpoints.
 
-Theorem C08_groupby_checkpoints : forall (key : Z -> Z) (s : src),
-  is_sync (fst s) = true \/ yields (fst (groupby_model key s)) = [] ->
-  has_ck (fst (groupby_model key s)) = true.
+Theorem C08_groupby_checkpoints : forall (same : Z -> Z -> bool) (key : Z -> Z) (s : src),
+  is_sync (fst s) = true \/ yields (fst (groupby_model same key s)) = [] ->
+  has_ck (fst (groupby_model same key s)) = true.
 Proof. exact groupby_checkpoints. Qed.
 Print Assumptions C08_groupby_checkpoints.
 
